@@ -30,7 +30,7 @@ CTX_NAMES = [None, 'FP64', 'FP32', 'FP16', 'RTZ16', 'RTP16', 'RTN32', 'RAZ8', 'M
 HOT = frozenset(['eval', 'compile', '_compile', 'to_value', 'from_value', '_mpfr_call_with_prec', '__iter__', 'mpfr_call',
                  '_visit_context', '_normalize', 'register', '_func_ctx', '_call_fpy', '_eval_call', 'round',
                  '_default_function_call', 'make_namespace', '__call__'])
-CRITICAL = ['_mpfr_call_with_prec', '_mpfr_call_with_prec', 'mpfr_call', '_round_odd', 'float_to_mpfr', 'compile', 'eval',
+CRITICAL = ['_mpfr_call_with_prec', '_mpfr_call_with_prec', '_mpfr_call_with_prec', 'mpfr_call', 'compile', 'eval', '_round_odd', 'float_to_mpfr', 'compile', 'eval',
             '_compile', 'to_value', 'from_value', '_normalize', '_func_ctx', '_call_fpy', '_eval_call', 'make_namespace',
             '_round_prepare', '_round_at', '_default_function_call', '_visit_function']
 OPCODE_FILES = ('interpret/byte.py', 'number/gmputils.py', 'number/engine/engine.py', 'fpy2/ops.py',
@@ -411,17 +411,21 @@ def gen_run(seed: int, tier: str, sub: str) -> dict:
                             'ctx': dctx, 'rt': r.choice(['default', 'own', 'fresh']), 'cancel': None})
                 continue
             cancel = None
-            if 'cancel' in fault_kinds and r.random() < 0.25:
-                if r.random() < 0.5:
+            if 'cancel' in fault_kinds and r.random() < 0.4:
+                if r.random() < 0.35:
                     cancel = int(2 ** r.uniform(0, 14.5))
                 else:
                     # placed where state is being changed: the k-th line inside a small critical function
-                    cancel = [r.choice(CRITICAL), r.randint(1, 40)]
+                    cancel = [r.choice(CRITICAL), r.randint(1, 20)]
             rt = r.choice(['default', 'default', 'own', 'fresh'])
             if cfg.get('stampede') and j < 3:
                 rt, cancel = 'default', None
             ops.append({'op': 'call', 'fn': [ns_map[ns], name], 'key': {'root': [ns, name], 'chain': []},
                         'args': cargs, 'ctx': cctx, 'rt': rt, 'cancel': cancel})
+            if cancel is not None and r.random() < 0.7:
+                # what a caller does after an interruption: the same call again, in the same thread
+                ops.append({'op': 'call', 'fn': [ns_map[ns], name], 'key': {'root': [ns, name], 'chain': []},
+                            'args': cargs, 'ctx': cctx, 'rt': rt, 'cancel': None, 'retry': True})
         threads.append(ops)
     return {'seed': seed, 'cfg': cfg, 'threads': threads, 'schedule': None, 'sched_seed': r.randrange(1 << 62)}
 
